@@ -74,6 +74,9 @@ PENDING = "check not built yet in this session (build in progress; see DESIGN.md
 
 def main():
     props = [json.loads(l)["id"] for l in open(os.path.join(VERIF, "properties.jsonl"))]
+    # order of the checks: light ones first; the per-tree verdict cache then serves the units they share with the heavy ones
+    ORDER = ["C18", "C15", "C16", "C12", "C08", "C06", "C07", "C11", "C10", "C02", "C17", "C03", "C01", "C04", "C05", "C09"]
+    props = [p for p in ORDER if p in props] + [p for p in props if p not in ORDER]
     have = registry.all_props()
     checks, na = [], []
     for p in props:
